@@ -214,6 +214,13 @@ static std::string read_verdict_mem(void* buf, size_t n, const Table& t) {
   try { r->read_fits_mem(buf, n); std::string v = compare(*r, t); delete r; return v; } catch (std::exception& e) { return "rej"; }
 }
 
+// every-byte sweeps: the real reader sees every state, the (slower) model reader the card and block boundaries and 1/16 of the rest
+static int model_here(long n, bool every_byte, Rng& r) {
+  if (!every_byte) return 1;
+  long c = n % 80, b = n % 2880;
+  return (c <= 1 || c == 79 || b <= 3 || b >= 2877 || r.below(16) == 0) ? 1 : 0;
+}
+
 struct Gen { std::vector<uint32_t> ord; std::vector<std::vector<double>> kn; std::vector<float> coef; };
 
 // classes: 0 minimal (about one block per HDU), 1 small, 2 medium (<= 20 blocks), 3 large (40..120 blocks), 4 huge (several hundred blocks)
@@ -360,6 +367,7 @@ int main(int argc, char** argv) {
       std::vector<unsigned char> S;
       auto apply = [&](const Op& o, long nbytes) { if (o.kind == 'W') { if (nbytes > 0) { if (S.size() < (size_t)(o.off + nbytes)) S.resize(o.off + nbytes, 0); memcpy(S.data() + o.off, o.data.data(), nbytes); } } else if (o.kind == 'T') S.resize(o.off, 0); };
       size_t nblocks = F.size() / 2880;
+      bool every_byte = thorough && nblocks <= 20;
       for (size_t k = 0; k <= ops.size(); k++) {
         spit(crash, S.data(), S.size());
         fprintf(fc, "K %zu\n", k); fprintf(fi, "%s\n", read_verdict(crash, t).c_str()); stats["crash_op_prefix"]++;
@@ -369,11 +377,11 @@ int main(int argc, char** argv) {
           // partial application of op k: every byte for small files in the thorough tier, else boundaries of cards plus random offsets
           std::vector<long> bs;
           if (thorough && nblocks <= 20) for (long b = 1; b < o.len; b++) bs.push_back(b);
-          else { int ns = nblocks <= 20 ? 24 : 3; for (int j = 0; j < ns; j++) { long b = 1 + (long)r.below(o.len - 1); if (j % 3 == 0) b = std::max(1L, b / 80 * 80 + (long)r.range(-1, 1)); if (b < o.len) bs.push_back(b); } }
+          else { int ns = nblocks <= 20 ? 24 : (nblocks > 100 && !thorough) ? 1 : 3; for (int j = 0; j < ns; j++) { long b = 1 + (long)r.below(o.len - 1); if (j % 3 == 0) b = std::max(1L, b / 80 * 80 + (long)r.range(-1, 1)); if (b < o.len) bs.push_back(b); } }
           for (long b : bs) {
             std::vector<unsigned char> save = S; apply(o, b);
             spit(crash, S.data(), S.size());
-            fprintf(fc, "B %zu %ld\n", k, b); fprintf(fi, "%s\n", read_verdict(crash, t).c_str()); stats["crash_partial_op"]++;
+            fprintf(fc, "B %zu %ld %d\n", k, b, model_here(b, every_byte, r)); fprintf(fi, "%s\n", read_verdict(crash, t).c_str()); stats["crash_partial_op"]++;
             S.swap(save);
           }
         }
@@ -382,11 +390,11 @@ int main(int argc, char** argv) {
       // plain byte prefixes of the final file (the literal statement of C08_prefix_safe)
       std::vector<long> ns;
       if (thorough && nblocks <= 20) for (long n = 0; n <= (long)F.size(); n++) ns.push_back(n);
-      else { for (size_t b = 0; b <= nblocks; b++) for (long d = (nblocks > 40 ? -1 : -2); d <= (nblocks > 40 ? 1 : 2); d++) { long n = (long)b * 2880 + d; if (n >= 0 && n <= (long)F.size()) ns.push_back(n); }
+      else { for (size_t b = 0; b <= nblocks; b++) for (long d = -2; d <= 2; d++) { if (nblocks > 40 && d != 0 && (std::labs(d) > 1 || (!thorough && nblocks > 100 && b > 3 && b + 16 < nblocks))) continue; long n = (long)b * 2880 + d; if (n >= 0 && n <= (long)F.size()) ns.push_back(n); }
              int extra = nblocks <= 20 ? 400 : 30; for (int j = 0; j < extra; j++) ns.push_back((long)r.below(F.size() + 1));
              // around the END card of the last two header blocks
-             for (long base : {(long)F.size() - 5760, (long)F.size() - 2880 * 4}) if (base >= 0) for (long d = 540; d <= 660; d += 1) ns.push_back(base + d); }
-      for (long n : ns) { if (n < 0 || n > (long)F.size()) continue; spit(crash, F.data(), n); fprintf(fc, "P %ld\n", n); fprintf(fi, "%s\n", read_verdict(crash, t).c_str()); stats["crash_byte_prefix"]++; }
+             for (long base : {(long)F.size() - 5760, (long)F.size() - 2880 * 4}) if (base >= 0) for (long d = 540; d <= 660; d += (nblocks > 40 ? 7 : 1)) ns.push_back(base + d); }
+      for (long n : ns) { if (n < 0 || n > (long)F.size()) continue; spit(crash, F.data(), n); fprintf(fc, "P %ld %d\n", n, model_here(n, every_byte, r)); fprintf(fi, "%s\n", read_verdict(crash, t).c_str()); stats["crash_byte_prefix"]++; }
       // holes: one block zeroed / one block cut out
       for (size_t b = 0; b < nblocks; b++) {
         if (nblocks > 40 && b > 3 && b + 12 < nblocks && r.below(8) != 0) continue;
